@@ -80,6 +80,25 @@ def shard(a):
                 prop({'mod': name, 'x': v[:i] + c + v[i:], 'opts': {}, 'clock': None}, res)
                 if i < len(v):
                     prop({'mod': name, 'x': v[:i] + c + v[i + 1:], 'opts': {}, 'clock': None}, res)
+    # the prefixes / suffixes the module strips, on numbers with unusual ends (runs of zeros, every edge character) and on
+    # a number that itself begins with the prefix: stripping twice is the classic way to lose the fixed point
+    pres = [q for q in pr['prefixes'] if q.isalnum()]
+    if pres or pr['suffixes']:
+        ws = (gen.pool(name)[:20] + gen.edge_pool(name) + gen.boundary_pool(name))[:a.get('nends', 600)]
+        for q in pres[:3]:
+            v0 = gen.pool(name)[0]
+            if len(q) < len(v0) and all(gen.cls(v0[i]) for i in range(len(q))):
+                for alt in (q, q.lower()):
+                    w = gen.synth(name, alt + v0[len(q):], [(i, ch) for i, ch in enumerate(alt)])
+                    if w and w[:len(q)].upper() == q:
+                        ws = [w] + ws
+        for w in ws:
+            for q in pres[:3]:
+                for x in (q + w, q + ' ' + w, q.lower() + w):
+                    prop({'mod': name, 'x': x, 'opts': {}, 'clock': None}, res)
+            for q in pr['suffixes'][:3]:
+                for x in (w + q, w + ' ' + q):
+                    prop({'mod': name, 'x': x, 'opts': {}, 'clock': None}, res)
     extra = gen.extra_valid(name)
     if extra is not None:
         # registry / table walking generator: every branch of the table the module consumes (court names, agencies, ...)
